@@ -290,6 +290,14 @@ class Assembler:
                 edits.append(Edit(k, cb + 1, "", "R3", f"attribute #{'!' if ob == k + 2 else ''}[{name}..] dropped"))
                 k = cb + 1
                 continue
+            # ---- visibility (R5): all extracted items live in one private module
+            if t.kind == IDENT and t.text == "pub" and not (k > a and v.is_p(k - 1, ".")):
+                e = k + 1
+                if v.is_p(e, "(") and v.text(e + 1) in ("crate", "super", "in", "self"):
+                    e = v.match[e] + 1
+                edits.append(Edit(k, e, "", "R5", "visibility dropped (single module)"))
+                k = e
+                continue
             # ---- use statements inside bodies (R5)
             if t.kind == IDENT and t.text == "use" and (k == a or v.text(k - 1) in ("{", ";", "}")):
                 j = k
@@ -516,8 +524,7 @@ class Assembler:
 
     @staticmethod
     def pubify(text):
-        # R5: pub(crate)/pub(super) -> pub
-        return re.sub(r"\bpub\s*\(\s*(crate|super|in [^)]*)\s*\)", "pub", text)
+        return text
 
     def find_fn(self, path):
         fi, cands = self.src.find(path)
@@ -716,7 +723,10 @@ class Assembler:
         self.emit("verus! {\n")
         for p in u.preludes:
             with open(os.path.join(VERIF, "prelude", p)) as f:
-                self.emit(f"\n// ===== prelude {p} =====\n" + f.read() + "\n")
+                # everything lives in one private module: visibility keywords are meaningless and
+                # would only trigger Verus's cross-module well-formedness checks
+                ptxt = re.sub(r"\bpub\s+((open|closed)\s+)?", "", f.read())
+                self.emit(f"\n// ===== prelude {p} =====\n" + ptxt + "\n")
         self.emit("\n// ===== extracted from /repo working tree =====\n")
         open_impl = None
 
@@ -747,7 +757,7 @@ class Assembler:
                 self.emit_item(e[1], e[2])
             elif e[0] == "raw":
                 close_impl()
-                self.emit("\n/*@L raw*/\n" + e[1] + "\n/*@E*/\n")
+                self.emit("\n/*@L raw*/\n" + re.sub(r"\bpub\s+((open|closed)\s+)?", "", e[1]) + "\n/*@E*/\n")
             elif e[0] == "fn":
                 fs = e[1]
                 fi, it = self.find_fn(fs.path)
